@@ -160,7 +160,7 @@ func C11(p *load.Prog, r *oblig.Run) {
 	r.Assumptions = append(e4Assumptions(), "objects received from a channel are owned by the receiver", "reads are not enumerated: a write/read race is reported through its write")
 	r.Rule("R11.a", "no unsynchronised store to shared state from the concurrent regions of Compare", 15)
 	r.Rule("R11.c", "every pipeline channel is closed by its producer on every path", 4)
-	g := cg.New(p, r.Tier == "thorough")
+	g := cg.New(p, false)
 	root := p.MustMethod(load.PkgRoot, "IndividualNodes", "Compare")
 	a := e4.New(p, g, root)
 	a.MarkGo = true
